@@ -271,6 +271,9 @@ def _c17(ctx, params):
     cfgS = _cfg(params, gtol, gradient_scaler=scaler, ftol=ftol, callback_kind="false", **jkw)
     if ft is not None:
         cfgS["ftarget"] = ft
+    if params.get("update_identity"):
+        # an update function that changes nothing: the stop tests go through the branch that follows the update call
+        cfgS["update_fun_def"] = lambda x, f0, f0_old, grad, X, G: (f0, f0_old, grad, G)
     S.execute(cfgS)
     if S.exc is not None:
         return _exc(ctx, S, info, "S")
@@ -281,6 +284,8 @@ def _c17(ctx, params):
     cfgE = _cfg(params, gtol, ftol=ftol, callback_kind="false", **jkw)
     if ft is not None:
         cfgE["ftarget"] = ft * sv
+    if params.get("update_identity"):
+        cfgE["update_fun_def"] = lambda x, f0, f0_old, grad, X, G: (f0, f0_old, grad, G)
     E.execute(cfgE)
     if E.exc is not None:
         return _exc(ctx, E, info, "E")
@@ -671,7 +676,14 @@ def _c13_rewrite(ctx, params):
         # the switch: new objective from now on, stored gradients rewritten at the stored points
         R.fu, R.gu = f2, g2
         from collections import deque
-        newG = deque(np.array(list(g2(list(xx.data)))) for xx in X)
+        if params.get("inplace"):
+            # the user rewrites the stored gradient arrays in place and hands the same deque back
+            for xx, gg in zip(X, G):
+                for i, t in enumerate(g2(list(xx.data))):
+                    gg[i] = t
+            newG = G
+        else:
+            newG = deque(np.array(list(g2(list(xx.data)))) for xx in X)
         newgrad = np.array(list(g2(list(x.data))))
         newf = f2(list(x.data))[0]
         newf_old = SReal(ctx.fresh("f0_old_new"))
